@@ -77,7 +77,7 @@ pub async fn session_loop(router: &VerifRouter, reader: &mut SharedReader, write
                 if close { break }
             }
             Ok(None) => break,
-            Err(res) => { send(res, writer).await; }
+            Err(res) => { send(res, writer).await; break }
         }
     }
 }
